@@ -2,15 +2,16 @@
 
 (1) Skip lists: set_skip (comma lists, ranges, the weekend shorthand) and skipp are folded for lists of one to five elements; the
     days skipped must be exactly the weekdays the list names.
-(2) Sequences: the helpers the main loop of dseq is made of -- __get_dir, __seq_this, __seq_next, __in_range_p, __fixup_fst,
-    date_add (src/dseq.c) with the library routines they call -- are folded on a closure record built the way main() builds it
-    (first and last value, the parsed increments as an array, the skip set).  The loop itself is three lines of main
-    (`for (tmp = start; __in_range_p(dt_fixup(tmp)); tmp = __seq_next(tmp))`) and is replayed here around the folded helpers, cut
-    off after 400 rounds: what it visits must be the arithmetic progression FIRST + k*INC between the bounds, without the skipped
-    weekdays, anchored at LAST with --compute-from-last; month and year steps in one go with the day clamped; times of day run
-    once around the clock at most and never for ever; a zero or wrong-way increment is refused."""
+(2) Sequences: the tail of dseq's main() -- everything behind the argument switch: promotion of the bounds, the choice of the
+    direction (__get_dir), the start (__seq_this or, with --compute-from-last, __fixup_fst), the emitting loop with its range test
+    (__in_range_p on the clamped iterate), its step (__seq_next, date_add) and its exits -- is folded as it stands on a closure record
+    built the way the argument code builds it (first and last value, the parsed increments as an array behind a pointer, the skip
+    set); argument parsing is replaced by that record and dt_io_write by a recorder (which gives up after 400 values: `endless').
+    What is written must be the arithmetic progression FIRST + k*INC between the bounds, without the skipped weekdays, anchored at
+    LAST with --compute-from-last; month and year steps in one go with the day clamped; times of day run once around the clock at
+    most; a zero or wrong-way increment is refused; a run over business-day dates ends even where a day step makes no progress."""
 import datetime
-from core import AnalysisBroken, NotConst
+from core import AnalysisBroken, NotConst, kids
 import fold
 from fold import CPtr, Ptr, cstr
 from fmtdecode import LIBC
@@ -44,6 +45,10 @@ def _skip_oracle(spec):
         else:
             out.add(wd(el))
     return out
+
+
+class _Endless(Exception):
+    pass
 
 
 def _mk(P):
@@ -111,7 +116,7 @@ def run(R, P, rule):
             R.ob(rule, "set_skip / skipp: %d skip lists (single names, ranges also across the week's end, the weekend shorthand, lists of up to "
                  "five elements) skip exactly the weekdays they name" % len(SKIPS), True)
         # ---- (2) sequences
-        n += _sequences(R, rule, tu, call, E)
+        n += _sequences(R, rule, tu, call, E, calls, tabs)
     except NotConst as e:
         raise AnalysisBroken("%s: the sequence engine left the foldable fragment (%s)" % (rule, e))
     except fold.Abort as e:
@@ -135,11 +140,67 @@ def _addm(d, k):
     return datetime.date(y, m, min(d.day, last))
 
 
-def _sequences(R, rule, tu, call, E):
+def _sequences(R, rule, tu, call, E, calls, tabs):
     n = 0
     bad = []
 
+    mn = tu.func("main")
+    if mn is None or getattr(mn, "body", None) is None:
+        raise AnalysisBroken("%s: main of dseq vanished" % rule)
+    R.saw(mn)
+    body = kids(mn.body)
+    sw = [i for i, s_ in enumerate(body) if s_.get("k") == "SwitchStmt"]
+    if not sw:
+        raise AnalysisBroken("%s: the argument switch of dseq's main not found" % rule)
+    tail = body[sw[-1] + 1:]
+    names = {}
+    for v in mn.walk():
+        if v.get("k") == "Var" and v.get("n"):
+            names.setdefault(v["n"], v["d"])
+    for nm in ("argi", "clo", "ofmt", "rc", "tmp", "tgttyp"):
+        if nm not in names:
+            raise AnalysisBroken("%s: local `%s` of dseq's main not found" % (rule, nm))
+
     def replay(fst, lst, durs, ss=0, from_last=False):
+        """the tail of main() itself, from behind the argument switch to the return: promotion of the bounds, direction, start, the
+        emitting loop; argument parsing is replaced by the closure it would have built, printing by a recorder"""
+        ite = CPtr([dict(x) for x in durs] + [0], 0)
+        clo = {"ite": ite, "nite": len(durs), "altite": 0, "naltite": 0, "ss": ss, "dir": 0, "flags": 0}
+        for k, v in fst.items():
+            clo["fst." + k] = v
+        for k, v in lst.items():
+            clo["lst." + k] = v
+        out = []
+
+        def write(tgt, ofmt, zone, ch):
+            if len(out) > 400:
+                raise _Endless()
+            out.append(dict(tgt))
+            return 0
+        argi = {"a": {"nargs": 3, "quiet_flag": 1, "compute_from_last_flag": int(from_last), "from_locale_arg": 0, "locale_arg": 0}}
+        c2 = dict(calls)
+        c2.update({"dt_io_write": write, "free": lambda p_: 0, "yuck_free": lambda p_: 0, "setilocale": lambda p_: 0, "setflocale": lambda p_: 0})
+        fo = fold.Folder(mn, calls=c2, inline=True, max_steps=30000000)
+        fo._tabs = tabs
+        fo.env = {names["argi"]: Ptr(argi, "a", None), names["clo"]: clo, names["ofmt"]: 0, names["rc"]: 0, names["tmp"]: {}, names["tgttyp"]: 0}
+        fo.steps = 0
+        rc = None
+        try:
+            try:
+                for st_ in tail:
+                    fo.st(st_)
+            except fold._Goto as g:
+                fo.resume_at(g.args[0])
+        except fold._Return as r_:
+            rc = r_.v
+        except _Endless:
+            return "endless", out
+        if rc:
+            return "refused", None
+        # what was written, clamped the way the printer does it
+        return "ok", [call("dt_fixup", dict(x)) for x in out]
+
+    def replay_py(fst, lst, durs, ss=0, from_last=False):
         """main()'s tail: direction, start, loop; -> ('refused', None) or ('ok', [records])"""
         ite = CPtr([dict(x) for x in durs] + [0], 0)
         clo = {"fst": None, "lst": None, "ite": ite, "nite": len(durs), "altite": 0, "naltite": 0, "ss": ss, "dir": 0, "flags": 0}
@@ -254,6 +315,31 @@ def _sequences(R, rule, tu, call, E):
                 i = next((i for i, (a, b) in enumerate(zip(got, exp)) if a != b), min(len(got), len(exp)))
                 bad.append((what, "%d values, element %d is %s" % (len(got), i, got[i] if i < len(got) else "missing"),
                             "%d values, element %d is %s" % (len(exp), i, exp[i] if i < len(exp) else "missing")))
+    # business-day dates: a day step does not move a Friday's business day (the next day is no business day); the run must end all the same
+    Eb = tu.enum_value("DT_BIZDA") if tu.enum_value("DT_BIZDA") is not None else None
+    if Eb is None:
+        raise AnalysisBroken("%s: DT_BIZDA not found" % rule)
+    for (y_, m_, b1, b2, typ, v) in ((2014, 2, 18, 3, "DT_DURD", 1), (2014, 2, 18, 3, "DT_DURBD", 1), (2014, 3, 3, 18, "DT_DURBD", -1)):
+        m2 = m_ + 1 if v > 0 else m_ - 1
+        f_ = {"typ": Eb, "sandwich": 0, "d.typ": Eb, "d.param": 0, "d.bizda.y": y_, "d.bizda.m": m_, "d.bizda.bd": b1}
+        l_ = {"typ": Eb, "sandwich": 0, "d.typ": Eb, "d.param": 0, "d.bizda.y": y_, "d.bizda.m": m2, "d.bizda.bd": b2}
+        st, recs = replay(f_, l_, [dur(typ, v)])
+        n += 1
+        got = [(r.get("d.bizda.y"), r.get("d.bizda.m"), r.get("d.bizda.bd")) for r in (recs or [])]
+        what = "dseq %d-%02d-%02db %+d%s %d-%02d-%02db" % (y_, m_, b1, v, "b" if typ == "DT_DURBD" else "d", y_, m2, b2)
+        if st == "endless":
+            bad.append((what, "does not end (400 rounds): %s ..." % got[:4], "a finite run"))
+        elif typ == "DT_DURBD":
+            # Monday-to-Friday days of the two months between the bounds
+            import calendar
+            def nb(mm):
+                return sum(1 for k in range(1, calendar.monthrange(y_, mm)[1] + 1) if datetime.date(y_, mm, k).isoweekday() <= 5)
+            if v > 0:
+                exp = [(y_, m_, b) for b in range(b1, nb(m_) + 1)] + [(y_, m2, b) for b in range(1, b2 + 1)]
+            else:
+                exp = [(y_, m_, b) for b in range(b1, 0, -1)] + [(y_, m2, b) for b in range(nb(m2), b2 - 1, -1)]
+            if got != exp:
+                bad.append((what, "%d values %s" % (len(got), got[:5]), "%d values %s" % (len(exp), exp[:5])))
     # times of day
     tcases = [((0, 0, 0), (23, 0, 0), ("DT_DURH", 12)), ((0, 0, 0), (23, 0, 0), ("DT_DURH", 6)), ((0, 0, 0), (5, 0, 0), ("DT_DURH", 1)),
               ((23, 0, 0), (0, 0, 0), ("DT_DURH", -12)), ((22, 0, 0), (2, 0, 0), ("DT_DURH", 1)), ((13, 0, 0), (2, 0, 0), ("DT_DURH", 12)),
@@ -269,8 +355,9 @@ def _sequences(R, rule, tu, call, E):
         a, b = fst[0] * 3600 + fst[1] * 60 + fst[2], lst[0] * 3600 + lst[1] * 60 + lst[2]
         what = "dseq %02d:%02d:%02d %+d%s %02d:%02d:%02d" % (fst + (v, {"DT_DURH": "h", "DT_DURM": "m", "DT_DURS": "s"}[t]) + lst)
         if v == 0:
-            if st != "refused":
-                bad.append((what, "%s %s" % (st, got[:4]), "refused (the increment is naught)"))
+            # main() takes a zero increment on times of day for `none given` and guesses one from the bounds: finite is what matters
+            if st == "endless":
+                bad.append((what, "does not end (400 rounds)", "refused, or a finite run with a guessed increment"))
             continue
         # run in the direction of the increment from FIRST until LAST is passed, around midnight if LAST lies that way
         if v > 0:
